@@ -1,10 +1,15 @@
 """What MANIFEST.json claims. One entry per property whose check is quiet on the unchanged tree and has caught a mutant."""
-HOOK_COMMITS = []
+HOOK_COMMITS = ["ec071ee"]
 NOTES = ("All checks: bin/check <ID> --tier quick|thorough [--replay FILE]; they rebuild from /repo's working tree "
          "(go build -overlay adds in-package harness files; /repo is never written). Exit 0 held / 1 VIOLATION / 3 machinery failure.")
 ENGINES = [
     dict(name="enum", path="engine/enum + harness/", serves_properties=[],
          kind_free_text="bounded-exhaustive enumeration of inputs / operation histories on the real code (in-package harness injected with go build -overlay) against a reference model"),
+    dict(name="sched", path="engine/sched (vsched.go, rewrite/) + lib/schedlib.py", serves_properties=[],
+         kind_free_text="stateless DFS over goroutine interleavings with a deviation (preemption / early timer) bound under a hand-written cooperative scheduler; "
+                        "the repository's concurrent files are AST-rewritten at check time so that sync/atomic/channel/time operations are scheduling points; plus a separate free-running -race pass"),
+    dict(name="ptydrive", path="engine/ptydrive (ptydrive.py, sweep.py, model_c09.py)", serves_properties=[],
+         kind_free_text="explicit-state exploration of the real fzf binary at event granularity: pty + --listen + VT emulator + gate scripts + build-tagged hook points; every explored sequence is one real execution"),
 ]
 NOT_APPLICABLE = {}
 CHECKS = {}
@@ -15,10 +20,75 @@ def add(pid, engine, technique, text, design_ref, note):
         if e["name"] in engine.split("+") and pid not in e["serves_properties"]:
             e["serves_properties"].append(pid)
 
-add("C02", "enum", "bounded-exhaustive enumeration of (text, pattern, flags) on the real matchers against a brute-force witness search",
-    "Every text up to the length bound over a 10-symbol alphabet (one symbol per character class the code distinguishes) x every admissible "
-    "pattern up to length 3 x case/normalise/direction/representation/slab/position variants x all 7 matchers x 3 schemes is executed on the real "
-    "functions; each reported match is checked to be a genuine witness and each non-match is checked against a brute-force search; plus a threshold "
-    "family of long lines around every size limit in the code. Small-scope exhaustive, not a proof for unbounded lengths.",
-    "DESIGN.md section 2, C02",
-    "trusts the normalisation table and Go's unicode tables; alphabets have one representative per character class; lengths beyond the bound only at the thresholds")
+
+A = add
+A("C01", "enum", "bounded-exhaustive enumeration of grammar-generated queries x lines x configurations against an AST-level reference evaluation",
+  "96 configurations x every single-term query (6 kinds x negation x 30 texts) x every line up to length 4-5 over 7 symbols; AND / OR / mixed queries over term cores; "
+  "--no-extended strings; and every ordered pair of queries on shared result caches over >2 full chunks. Match/no-match must equal the reference for every triple.",
+  "DESIGN.md section 2, C01", "small scope (lines <= 4/5, term texts <= 2); the normalisation table is trusted data; the CLI option mapping is exercised by C07/C10 CLI layers")
+A("C02", "enum", "bounded-exhaustive enumeration of (text, pattern, flags) on the real matchers against a brute-force witness search",
+  "Every text up to length 4 (quick) / 6 (thorough) over a 10-symbol alphabet (one symbol per character class) x every admissible pattern <= 3 x case/normalise/direction/"
+  "representation/slab/position variants x all 7 matchers x 3 schemes; each reported match is checked to be a genuine witness and each non-match against a brute-force search; "
+  "plus a threshold family of long lines around every size limit in the code.",
+  "DESIGN.md section 2, C02", "trusts the normalisation table and Go's unicode tables; lengths beyond the bound only at the thresholds")
+A("C03", "enum", "bounded-exhaustive enumeration against a naive whole-line evaluation of the documented recurrence and a brute-force best alignment",
+  "All texts <= 4/5 over 11 symbols x patterns <= 3 x folding x direction x representation x 3 schemes: V2 score == naive recurrence and <= best existing alignment; V1 / exact / prefix / "
+  "suffix == score of the reported occurrence; boundary / equal terms: documented ordering. One known finding (D9, single-character fast path).",
+  "DESIGN.md section 2, C03", "reference recurrence written from the documented rules; long lines only at thresholds (no random sampling)")
+A("C04", "enum", "bounded-exhaustive enumeration of lists x tiebreak lists x sort/tac/partitions/probe orders on the real scan + Merger against a global stable sort",
+  "All lists <= 4/5 over a 12-line pool (real and scaled chunk size), structured long lists 0..6400 with --tail trimmed first chunks, all 86 tiebreak lists, sort, tac, 4 partition counts, "
+  "4 queries, all probe permutations for <= 5 matches: Get(0..n-1) is exactly the global stable sort under an independent comparator.",
+  "DESIGN.md section 2, C04", "rank key formulas other than score/length slots are taken as given; scheduler layer for scan is part of C13/C08 machinery")
+A("C05", "enum", "bounded-exhaustive enumeration of call histories on one scratch slab, poisoned slabs, representations and position flags",
+  "All ordered pairs (and triples over a core) of matcher calls on a shared slab; every case on 8 poisoned slabs; bytes vs runes; positions on/off: results must equal the fresh nil-slab result. "
+  "One known finding (D11, V2 Start without positions).",
+  "DESIGN.md section 2, C05", "a fresh call with a nil slab is the reference value")
+A("C06", "enum", "bounded-exhaustive enumeration of byte streams x every delivery (read sizes, empty reads, end kinds) on the real Reader.feed and ChunkList",
+  "All streams <= 8/9 bytes over {a, other-delimiter, delimiter} x every way the environment may answer each Read (three scaled buffer configurations), real 64K/128K constants with deviation-bounded "
+  "short reads at the boundaries, all push/snapshot(tail) sequences <= 14: records == split(stream), unaltered after the last read, snapshots immutable.",
+  "DESIGN.md section 2, C06", "environment model: (n>0,nil)* then (0,EOF)|(0,err); (n>0,EOF) excluded as unreachable from a descriptor")
+A("C07", "ptydrive", "exhaustive enumeration of record lists x framing options (filter mode) and selection histories x terminal events (interactive, real binary under a pty)",
+  "50k filter processes (<= 2-3 records from a 10-record pool x read0/print0/ansi/print-query/no-sort/with-nth) compared byte-wise; 6k interactive sessions: selection histories <= 2-3 x "
+  "11 terminal events x multi/print0/print-query/expect/accept-nth/with-nth; --select-1/--exit-0; malformed command lines exit 2.",
+  "DESIGN.md section 2, C07", "matching is C01's business (queries '', one letter, no match); selection state brought into agreement with the C09 model first")
+A("C08", "enum", "explicit-state BFS over query-edit / sort / input histories against shared caches on the real Matcher (Reset/Loop)",
+  "All event histories of depth 4 (quick) / 5 (thorough) over 25 events (typing operators, deleting, clear, toggle-sort, exclude, more input, end of input), deduplicated on the state sequence; "
+  "after every step the published list equals a fresh filter over an independently built input.",
+  "DESIGN.md section 2, C08 (a)", "layer (a) only in this entry; mailbox schedules (b) and end-to-end (c) are separate layers")
+A("C09", "ptydrive", "explicit-state BFS over action histories on the real binary (pty + --listen), compared step by step with a readline/cursor/selection reference model",
+  "BFS with state deduplication to depth 2 (quick) / 3 (thorough) over 38 actions x 3-6 configurations, all two-action chains of editing actions, raw key bytes for the default bindings, "
+  "non-initial start states, and accept output.",
+  "DESIGN.md section 2, C09", "match lists come from fzf --filter; deduplication key is the model's complete state; eventual agreement with 10 s deadline and 5x confirmation")
+A("C10", "enum", "bounded-exhaustive enumeration of lines x delimiters x range expressions against a loop-based tokenizer and the man-page range table",
+  "All lines <= 6/7 over 6 symbols x 6 delimiters x 73 ranges (+196 lists); ParseRange on all strings <= 5/7; --nth matching with witness offsets in the full line; with-nth/accept-nth templates and "
+  "placeholders; a CLI layer.", "DESIGN.md section 2, C10", "documented quirks pinned as assumptions in the evidence")
+A("C11", "enum", "bounded-exhaustive enumeration of byte strings and grammar-generated text/sequence interleavings against the documented regex and an independent SGR interpreter",
+  "All byte strings <= 5/6 over 20 symbols and OSC bodies <= 6/7; interleavings of <= 3 text chunks and <= 3 sequences from an 81-entry catalogue from every carried state of a 2-line history.",
+  "DESIGN.md section 2, C11", "on arbitrary bytes only robustness / span well-formedness / no-swallowing are demanded; one known finding (D23)")
+A("C12", "enum", "bounded-exhaustive enumeration of shell-hostile texts x placeholder templates, expansions evaluated by the real /bin/sh and bash",
+  "All strings <= 3 over 26 symbols (+ <= 4 over the 8 most dangerous) x 67 (world, template) pairs: argv reported by the shells == original items; {f} files; tmux re-launch quoting.",
+  "DESIGN.md section 2, C12", "dash and bash define 'a POSIX shell evaluates'; fish branch structural only (fish not installed)")
+A("C13", "sched", "stateless DFS over all interleavings with a deviation bound under a controlled scheduler on the rewritten real sources (+ separate free-running -race pass)",
+  "Five scenarios (snapshot isolation with/without --tail, cancellation incl. Matcher.Loop, cache under concurrent partitions, event box, reader/poller/consumer), every schedule with <= 2-4 "
+  "deviations (quick) / 3-6 (thorough); published results == sequential filter of the snapshot; no deadlock / lost wake-up. Race pass: known finding D6.",
+  "DESIGN.md section 2, C13", "scheduling points = sync/atomic/channel/time operations of six rewritten files; sequential consistency; the race pass is a sample by construction")
+A("C16", "enum", "bounded-exhaustive enumeration of request token sequences x write splits x end modes on the real handleHttpRequest / startHttpServer",
+  "All token sequences <= 4/5 over 19 tokens x {key, no key} x 3 end modes; every 2-write split and truncation point; 1.1k-1.7k action bodies vs parseKeymap; loopback wire layer.",
+  "DESIGN.md section 2, C16", "requests that terminate fzf may lose their response (exit wins): out of scope of 'every request gets an answer'")
+A("C17", "enum", "bounded-exhaustive enumeration of argument vectors from the live option vocabulary and of bind strings from the key/action grammar",
+  "202 option names x 126 values x 3 spellings (also via env and options file), all ordered pairs of accepted vectors (args-over-env composition), last-wins, all 134 action names, "
+  "37 argument actions x 17 delimiter forms x texts <= 2/3, and a CLI layer.", "DESIGN.md section 2, C17", "cumulative options exempt from last-wins")
+A("C18", "enum", "explicit-state BFS over chains of sessions (load, navigate/edit, submit) on real history files against a plain-list model",
+  "Chains of <= 3 sessions x <= 4/5 navigation steps x 6 endings x sizes {1,2,3} x 8-11 initial files, deduplicated on (file bytes, lines, modified, cursor, input).",
+  "DESIGN.md section 2, C18", "in-package; the process layer is not built")
+A("C19", "enum", "bounded-exhaustive enumeration of directory trees x walker option sets x skip lists against an os.ReadDir reference walker",
+  "All trees <= 4/5 nodes, depth <= 3, 4 names, 7 node kinds x 12 option sets x 6 skip lists x root forms; multiset comparison.",
+  "DESIGN.md section 2, C19", "hidden governs directories (man page); symlink-loop rule as fastwalk")
+A("C20", "ptydrive", "exhaustive enumeration of event sequences x preview duration classes x hook modes on the real binary (-tags verif), gate scripts decide when previews finish",
+  "All event sequences <= 2/3 over 11 events (moves, edits, toggle, refresh/toggle/change-preview, release, 600 ms, hook release) x 4 duration classes x 3 hook modes: last started preview == "
+  "(item, query, selection); pane shows it; <= 1 alive; none after exit. Known finding D5.", "DESIGN.md section 2, C20",
+  "cursor/query/selection follow the C09 model; quiescence = 1.2 s of stability past fzf's 500 ms grace timers")
+NOT_APPLICABLE.update({
+    "C14": "check not built yet in this round (Engine C robustness / exit-hygiene sweep planned, DESIGN.md section 2 C14)",
+    "C15": "check not built yet in this round (incremental == full redraw differential planned, DESIGN.md section 2 C15)",
+})
